@@ -464,6 +464,12 @@ func (o *c05) Step(r *StepRec) []Violation {
 			rightful, target = hx(rc.Consumer), true
 			moduleCtx = rc.ModuleName != ""
 		}
+	case KModPause, KModStart, KModKill, KModUpdate:
+		// the same operations through the keeper API, as the owning module performs them on behalf of
+		// an account: they succeed only in the name of the context's consumer
+		if rc, ok := pre.Ctxs[a.CtxID]; ok {
+			rightful, target = hx(rc.Consumer), true
+		}
 	case KRespond:
 		if rq, ok := pre.Reqs[a.ReqID]; ok {
 			rightful, target = hx(rq.Provider), true
